@@ -1,6 +1,6 @@
 (** Property C12 — the theorems the check counts as obligations.  Nothing but
     statements closed by [exact] and [Print Assumptions]. *)
-From HS Require Import Base.Prelude C12.Model C12.PaxosNode C12.PaxosSys C12.PaxosAgree C12.LockModel C12.Lock C12.MultiModel C12.Multi C12.ElectionModel C12.Election.
+From HS Require Import Base.Prelude C12.Model C12.PaxosNode C12.PaxosSys C12.PaxosAgree C12.PaxosFull C12.PaxosDecide C12.LockModel C12.Lock C12.MultiModel C12.Multi C12.ElectionModel C12.Election.
 From Coq Require Import Sorted.
 Local Open Scope Z_scope.
 
@@ -57,17 +57,37 @@ Theorem c12_paxos_one_value_per_ballot : forall n sch s1 d1 s2 d2 k b x1 x2,
 Proof. exact one_value_per_ballot. Qed.
 Print Assumptions c12_paxos_one_value_per_ballot.
 
-(** AGREEMENT (partial; the full statement "any two nodes that report a decided
-    value report the same value" additionally needs: response lists have
-    distinct senders, and a reported decision is a chosen value — both are
-    monitored by the oracle on every run, not proved).  Every schedule of a
-    cluster of at least 2 nodes along which phase-1 response lists have distinct
-    senders: two values each accepted by a majority under some ballot are equal. *)
-Theorem c12_paxos_agreement_partial : forall n, 2 <= n -> forall sch b v b' v',
-  dr_along n sys_init sch ->
+(** The network never duplicates a message: whatever the schedule, the
+    phase-1 responses a proposer holds for a ballot come from distinct nodes. *)
+Theorem c12_paxos_distinct_responders : forall n sch, distinct_responders (sys_run n sys_init sch).
+Proof. exact distinct_responders_always. Qed.
+Print Assumptions c12_paxos_distinct_responders.
+
+(** Classical Paxos consistency on the faithful model, every schedule of a
+    cluster of at least 2 nodes: two values each accepted by a majority under
+    some ballot are equal. *)
+Theorem c12_paxos_chosen_unique : forall n, 2 <= n -> forall sch b v b' v',
   chosen n (sys_run n sys_init sch) b v -> chosen n (sys_run n sys_init sch) b' v' -> v = v'.
-Proof. exact chosen_unique_partial. Qed.
-Print Assumptions c12_paxos_agreement_partial.
+Proof. exact chosen_unique_always. Qed.
+Print Assumptions c12_paxos_chosen_unique.
+
+(** A node that reports a decision reports a chosen value (the proposer's
+    Accepted tally counts distinct voters of its ballot; Decided messages carry
+    chosen values). *)
+Theorem c12_paxos_decided_is_chosen : forall n, 2 <= n -> forall sch i x,
+  report (sys_run n sys_init sch) i = Some x -> exists b, chosen n (sys_run n sys_init sch) b x.
+Proof. exact decided_is_chosen. Qed.
+Print Assumptions c12_paxos_decided_is_chosen.
+
+(** AGREEMENT (full statement for single-decree Paxos, on the repaired code):
+    under any message delays, reordering, loss, partitions, retry timings and
+    competing proposers, for every cluster size >= 2, any two nodes that report
+    a decided value report the same value — also at two different moments of
+    the run. *)
+Theorem c12_paxos_agreement : forall n, 2 <= n -> forall sch ext i j x y,
+  report (sys_run n sys_init sch) i = Some x -> report (sys_run n sys_init (sch ++ ext)) j = Some y -> x = y.
+Proof. exact agreement_over_time. Qed.
+Print Assumptions c12_paxos_agreement.
 
 (** FENCING TOKENS: for every sequence of acquire / try_acquire / release /
     lease-expiry calls (any lock names, requesters, tokens, waiter limit), the
